@@ -13,7 +13,8 @@ EVIDENCE = os.environ.get('VERIF_EVIDENCE', os.path.join(VERIF, 'evidence'))
 CC, CXX = 'clang', 'clang++'
 TRAPS = ['malloc', 'free', 'realloc', 'calloc', 'strdup', 'aligned_alloc', 'posix_memalign']
 # libc facilities that keep hidden per-process state (C17): a call from library code is trapped when it executes
-TRAPS_MT = ['gmtime', 'localtime', 'ctime', 'asctime', 'strtok', 'rand', 'srand', 'random', 'srandom', 'drand48', 'lrand48', 'mrand48', 'setlocale', 'strerror', 'tmpnam', 'ecvt', 'fcvt', 'strsignal', 'setenv', 'putenv', 'unsetenv', 'getpwnam', 'getpwuid', 'ttyname', 'basename', 'dirname', 'nl_langinfo', 'localeconv', 'wcstombs', 'mbstowcs', 'mblen', 'mbtowc', 'wctomb']
+TRAPS_MT = ['gmtime', 'localtime', 'ctime', 'asctime', 'strtok', 'rand', 'srand', 'random', 'srandom', 'drand48', 'lrand48', 'mrand48', 'setlocale', 'strerror', 'tmpnam', 'ecvt', 'fcvt', 'strsignal', 'setenv', 'putenv', 'unsetenv', 'getpwnam', 'getpwuid', 'ttyname', 'basename', 'dirname', 'nl_langinfo', 'localeconv', 'wcstombs', 'mbstowcs', 'mblen', 'mbtowc', 'wctomb',
+            'signal', 'sigaction', 'sigprocmask', 'umask', 'chdir', 'tzset', 'srand48', 'alarm', 'atexit']
 
 def log(*a):
     print(*a, file=sys.stderr, flush=True)
@@ -42,7 +43,7 @@ FLAVOURS = {
     'plainO0': (['-O0', '-g', '-gdwarf-4', '-DDEBUG=true', '-fPIC'], ['-O2', '-g', '-gdwarf-4', '-DSIM_FLAVOUR_PLAIN'], [], True),
     # size-optimised release build in the newest C dialect the compiler offers: what `CMAKE_BUILD_TYPE=MinSizeRel` with a compiler that
     # passes the project's [[nodiscard]] probe produces (__OPTIMIZE_SIZE__ defined, __STDC_VERSION__ >= 201112L); every check runs a slice on it
-    'plainOs': (['-Os', '-g', '-gdwarf-4', '-DNDEBUG', '-fPIC', '-std=c2x'], ['-O2', '-g', '-gdwarf-4', '-DSIM_FLAVOUR_PLAIN'], [], True),
+    'plainOs': (['-Os', '-g', '-gdwarf-4', '-DNDEBUG', '-fPIC', '-std=c2x'], ['-O2', '-g', '-gdwarf-4', '-DSIM_FLAVOUR_PLAIN'], [], True, 'gcc'),   # and with the other compiler: the library objects of this flavour are gcc's
     # ... and under ThreadSanitizer; plainO2 is the release flavour (-DNDEBUG)
     'tsan': (['-O1', '-g', '-fno-omit-frame-pointer', '-fsanitize=thread', '-DDEBUG=true'], ['-O2', '-g', '-DSIM_FLAVOUR_TSAN'], ['-fsanitize=thread'], False),
 }
@@ -133,7 +134,8 @@ def build_locked(flavour, L=None):
     k = (flavour, L)
     if k in _built: return _built[k]
     t0 = time.time()
-    libflags, simflags, ldflags, shared = FLAVOURS[flavour]
+    libflags, simflags, ldflags, shared = FLAVOURS[flavour][:4]
+    lib_cc = FLAVOURS[flavour][4] if len(FLAVOURS[flavour]) > 4 else CC
     cfg, sources, defines, includes, std = configure(L)
     # the configure step is a Release one (its compile commands carry -DNDEBUG); the flavour decides: the Debug flavours must
     # have assert() live, or CBOR_ASSERT and everything inside its argument is compiled out
@@ -142,7 +144,7 @@ def build_locked(flavour, L=None):
     cfg_headers = [os.path.join(cfg, 'cbor', 'configuration.h'), os.path.join(cfg, 'src', 'cbor', 'cbor_export.h')]
     for p in cfg_headers:
         if not os.path.exists(p): raise SystemExit(harness_fault('missing generated header ' + p))
-    lib_key = tree_hash(sources + hs + cfg_headers) + '-' + hashlib.sha256((' '.join(libflags + defines + [std])).encode()).hexdigest()[:8]
+    lib_key = tree_hash(sources + hs + cfg_headers) + '-' + hashlib.sha256((' '.join([lib_cc] + libflags + defines + [std] + TRAPS + TRAPS_MT)).encode()).hexdigest()[:8]
     libdir = os.path.join(BUILD, 'lib-%s-%s' % (flavour, lib_key))
     objs = []
     jobs = []
@@ -151,7 +153,7 @@ def build_locked(flavour, L=None):
         o = os.path.join(libdir, os.path.relpath(s, os.path.join(REPO, 'src')).replace('/', '_') + '.o')
         objs.append(o)
         if not os.path.exists(o):
-            jobs.append(([CC, std] + libflags + defines + includes + ['-c', s, '-o', o + '.tmp.o'], o))
+            jobs.append(([lib_cc, std] + libflags + defines + includes + ['-c', s, '-o', o + '.tmp.o'], o))
     if jobs:
         compile_many(jobs)
         redef = []
